@@ -208,9 +208,12 @@ theorem C12_content (o : Ora) (i : In) (a : Answer) (h : attrQuery o i = .answer
     subst h
     exact ⟨q, sp, subj, attrs, m, hq, hsp, hsubj, hui, hm, rfl, rfl, rfl, rfl, rfl, rfl, by simpa using hsign⟩
 
-theorem C12_source_current : Gen.Facts.aqChain = Expected.aqChain ∧ Consts.current = true ∧
-    FactsUtil.sameHashes ["provider.makeAttributeQueryResponse", "provider.createPostSignature",
-      "xml.DecodeAttributeQuery", "xml.WriteXMLMarshalled", "serviceprovider.ServiceProvider.ValidatePostSignature"] = true := ⟨by decide, by decide, by decide⟩
+/-- what stays fingerprinted for C12: the constants and the functions that are oracles of the translated handler.  The
+    handler and `makeAttributeQueryResponse` are translated on every run and tied by proof
+    (`AttrQueryGen.attrquery_handler_refines`, `makeAttributeQueryResponse_refines`, Props/AttrQueryProps.lean) -/
+theorem C12_source_current : Consts.current = true ∧
+    FactsUtil.sameHashes ["provider.createPostSignature",
+      "xml.DecodeAttributeQuery", "xml.WriteXMLMarshalled", "serviceprovider.ServiceProvider.ValidatePostSignature"] = true := ⟨by decide, by decide⟩
 
 /-- non-vacuity -/
 def ora0 : Ora where
